@@ -2,7 +2,7 @@
 (* Generator for C16: ignore-file contents x argument lists x flags. *)
 EXTENDS Selection, TLC, Json
 
-CONSTANTS Pats, ArgSets, MaxPats, FlagSets, GlobSets
+CONSTANTS Pats, ArgSets, MaxPats, FlagSets, GlobSets, IgNames
 VARIABLES sc, phase
 vars == <<sc, phase>>
 
@@ -57,16 +57,25 @@ Flags(fs) == CASE fs = "none" -> [respect |-> FALSE, allow_hidden |-> FALSE]
 Init == phase = "init" /\ sc = [none |-> TRUE]
 Build ==
   /\ phase = "init"
-  /\ \E r \in PatSeqs, s \in PatSeqs, a \in ArgSets, fl \in FlagSets, g \in GlobSets :
+  /\ \E r \in PatSeqs, s \in PatSeqs, a \in ArgSets, fl \in FlagSets, g \in GlobSets, n \in IgNames :
+        \* the root ignore file may also be called `.ignore` (CHANGELOG 0.20: treated "as if" it were a .styluaignore)
+        /\ (n # "stylua" => (g = "none" /\ Len(r) = 1 /\ s = <<>>))
         /\ (r = <<>> \/ s = <<>> \/ (Len(r) = 1 /\ Len(s) = 1))          \* budget: at most two patterns in total
         /\ (g # "none" => Len(r) + Len(s) <= 1)                            \* ... one next to a glob list
-        /\ sc' = [ig_root |-> r, ig_src |-> s, args |-> ArgsOf(a), argset |-> a, globs |-> GlobsOf(g), globset |-> g,
+        /\ sc' = [ig_root |-> r, ig_src |-> s, args |-> ArgsOf(a), argset |-> a, globs |-> GlobsOf(g), globset |-> g, igname |-> n,
                   respect |-> Flags(fl).respect, allow_hidden |-> Flags(fl).allow_hidden]
   /\ phase' = "done"
 Spec == Init /\ [][Build]_vars
 
 (* the same explicit file under two spellings is one file *)
-Case == [sc |-> sc, selected |-> SelectedSet(sc), maybe |-> MaybeSet(sc), universe |-> {f.path : f \in Universe},
+(* The property speaks of .styluaignore only.  That an `.ignore` file counts "as if" it were one is the CHANGELOG's *)
+(* wording for the directory walk; for a file named explicitly under --respect-ignores neither text settles it,     *)
+(* so there both outcomes are accepted.                                                                              *)
+ExplicitFiles == {f.path : f \in {g \in Universe : \E i \in DOMAIN sc.args :
+                                   sc.args[i].kind = "file" /\ sc.args[i].path \in {g.path, "./" \o g.path}}}
+Case == [sc |-> sc, selected |-> SelectedSet(sc) \ (IF sc.igname # "stylua" /\ sc.respect THEN ExplicitFiles ELSE {}),
+         maybe |-> MaybeSet(sc) \cup (IF sc.igname # "stylua" /\ sc.respect THEN ExplicitFiles ELSE {}),
+         universe |-> {f.path : f \in Universe},
          ignored |-> {f.path : f \in {g \in Universe : Ignored(sc, g)}}]
 Emit == phase = "done" => PrintT(<<"CASE", ToJson(Case)>>)
 =============================================================================
